@@ -86,7 +86,21 @@ def seed_bare():
     return s
 
 
-SEEDS = [("flat", seed_flat), ("forest", seed_forest), ("layered", seed_layered), ("two-level", seed_two_level), ("bare", seed_bare)]
+def seed_dashed():
+    """Two top-level variants, one of them with a dashed UID (registered under its dash-less id when built through add(),
+    under its UID after a load) and paths for two arches."""
+    s = seed_flat()
+    s["variants"] = [vspec("Server", arches=["i386", "x86_64"]),
+                     vspec("Serveroptional", "optional", ["i386", "x86_64"], uid="Server-optional"),
+                     vspec("Workstation", arches=["x86_64"])]
+    for v in s["variants"][:2]:
+        for a in v["arches"]:
+            v["paths"]["os_tree"] = dict(v["paths"].get("os_tree", {}), **{a: "%s/%s/os" % (v["uid"], a)})
+    return s
+
+
+SEEDS = [("flat", seed_flat), ("forest", seed_forest), ("layered", seed_layered), ("two-level", seed_two_level), ("bare", seed_bare),
+         ("dashed", seed_dashed)]
 
 
 # ------------------------------------------------------------------------------------------------
@@ -330,6 +344,21 @@ def edits(spec, seed=0, max_depth=3):
                     if v["paths"].get(cat, {}).get(arch) != val:
                         out.append(["path", v["uid"], cat, arch, val])
         out.append(["allpaths", v["uid"]])
+    # the arch set of an existing variant changes (one arch more / one arch fewer; children keep a subset)
+    for v, depth, _ in nodes:
+        kids = set(a for c in v["children"] for a in c["arches"])
+        for a in v["arches"]:
+            if len(v["arches"]) > 1 and a not in kids:
+                out.append(["arches", v["uid"], [x for x in v["arches"] if x != a]])
+        if depth == 1:
+            for a in TOP_ARCHES:
+                if a not in v["arches"]:
+                    out.append(["arches", v["uid"], sorted(v["arches"] + [a])])
+                    break
+    # a childless variant is taken out of the forest again
+    for v, depth, _ in nodes:
+        if not v["children"] and len(nodes) > 1:
+            out.append(["delvar", v["uid"]])
     return out
 
 
@@ -358,6 +387,18 @@ def apply_spec(spec, e):
         for cat in PATH_CATEGORIES:
             for a in v["arches"]:
                 v["paths"].setdefault(cat, {})[a] = "%s/%s/%s" % (v["uid"], a, cat)
+    elif k == "arches":
+        find(s, e[1])["arches"] = list(e[2])
+    elif k == "delvar":
+        def drop(vs):
+            for i, v in enumerate(vs):
+                if v["uid"] == e[1]:
+                    del vs[i]
+                    return True
+                if drop(v["children"]):
+                    return True
+            return False
+        drop(s["variants"])
     else:
         raise ValueError(e)
     return s
@@ -390,6 +431,13 @@ def apply_obj(ci, e, spec_after):
         for cat in PATH_CATEGORIES:
             for a in sorted(var.arches):
                 getattr(var.paths, cat)[a] = "%s/%s/%s" % (var.uid, a, cat)
+    elif k == "arches":
+        ci[e[1]].arches = set(e[2])
+    elif k == "delvar":
+        var = ci[e[1]]                                   # (looked up by UID, as a caller holding a UID would)
+        box = var.parent if var.parent is not None else ci.variants
+        key = [x for x in box if box.variants[x] is var][0]
+        del box[key]
     if spec_after["compose"]["id"] == "auto":
         ci.compose.id = ci.create_compose_id()
     else:
